@@ -119,3 +119,22 @@ def heap_q1(ctx):
         ctx.undecided("C11-Q1", ctx.site(KD, "KDTree.query"), "no mouette.utils.PriorityQueue is created by the k-d tree",
                       "the heap discipline of another container is not decided")
     c20.q1_queue(ctx, rule="C11-Q1", with_empty=False)
+
+
+
+# ----------------------------------------------------------------------- generic families (msa/rules/generic.py)
+_run_specific = run
+
+
+def run(ctx):
+    _run_specific(ctx)
+    from ..rules import generic
+    generic.apply(ctx, "C11", stale_modules=())
+
+
+def _generic_rule_texts():
+    from ..rules import generic
+    return generic.rule_texts("C11", stale=False)
+
+
+RULES.update(_generic_rule_texts())
